@@ -279,7 +279,7 @@ func runC19(w *fw.Worker) {
 			}
 		} else {
 			n := r.Range(3, 5)
-			ws := gen.RandomWords(r, n, 45)
+			ws := gen.MaybeUnicode(r, gen.RandomWords(r, n, 45), 10)
 			if c19CheckGoName(w, i, ws) {
 				w.Distinct("B|" + strings.Join(ws, ","))
 				if i%997 == 5 {
